@@ -13,21 +13,24 @@ PROP = dict(
                'warning alerts, renegotiation ClientHello, false-start data and re-tagged bodies are "receiver may refuse": only the safety invariants are checked); '
                'the harness follows the documented caller contract of matrixsslApi.c; entropy/clock pinned by ld --wrap.',
     technique='property-based testing: model-based trace mutation with a scripted keyed peer (state-machine fuzzing in the style of SMACK / EarlyCCS), history monitor on completion and delivery',
-    rule='case = (victim role, TLS 1.2 RSA/ECDHE x GCM/CBC-SHA256 or TLS 1.1 RSA/ECDHE CBC-SHA, client-auth, EMS pairing, 0-2 ops from {delete i, duplicate i (same bytes or rebuilt), '
+    rule='TLS 1.2/1.1 (c06_seq12*): case = (victim role, TLS 1.2 RSA/ECDHE x GCM/CBC-SHA256 or TLS 1.1 RSA/ECDHE CBC-SHA, full or session-id-resumed handshake, client-auth, EMS pairing, 0-2 ops from {delete i, duplicate i (same bytes or rebuilt), '
          'swap (i,i+1), re-tag type byte, substitute by another message, inject any message of the alphabet (HelloRequest, second Hello, ServerKeyExchange in RSA mode, '
          'CertificateRequest, Certificate, empty Certificate, CertificateVerify, NewSessionTicket, CCS, application data, warning alert, unknown type) at any position, '
-         'flip one bit of Finished, wrong record protection}, trailing application data under the session keys, fragmentation / record coalescing / receive chunking); '
+         'flip one bit of Finished, wrong record protection (plaintext after CCS / protected before it), the complete legal trace of a neighbouring mode (client-auth, key exchange or resumption flipped)}, '
+         'trailing application data under the session keys, fragmentation / record coalescing / receive chunking); '
+         'c06_seq12_singles enumerates every single op over 48 modes (11328 traces) with default framing, c06_seq12 samples 0/1/2 ops (10/50/40 %) with random framing; '
          'non-trivial = the first message outside the language reached a live victim (or the trace was legal / a proper prefix and ran to its end); '
          'distinct by (role, version+suite, client-auth, op, position[, injected message])',
-    assumptions=['session-id / ticket resumption traces are not generated yet (the puppet supports session-id resumption; the victim-side cache plumbing is not wired into this target)',
+    assumptions=['TLS <= 1.2: RFC 5077 ticket resumption, PSK/ECDH_/ECDSA suites and CertificateStatus are not generated (NewSessionTicket / CertificateStatus are only sent where they are illegal)',
+                 'a legal trace must complete only in record shapes MatrixSSL supports: no record holding the tail of one fragmented handshake message and the head of another, no fragmented Finished/CertificateVerify (both are answered with an alert: conformance limits, not C06)',
                  'DTLS ordering deviations belong to C16'],
     targets=[
         # random: 0-2 deviations (mostly two-step) x framing variations x EMS pairings x resumption
         dict(name='c06_seq12', src=_SRC12, libs=['-lcrypto'], wraps=WRAPS, env={'VERIF_DIR': '/verif'},
-             quick=dict(cases=2000, secs=70), thorough=dict(cases=100000, secs=900)),
-        # bounded-exhaustive: every single-step deviation of every legal trace (48 modes), default framing; quick runs every 5th index (offset = seed mod 5)
+             quick=dict(cases=1600, secs=45), thorough=dict(cases=60000, secs=540)),
+        # bounded-exhaustive: every single-step deviation of every legal trace (48 modes), default framing; quick runs every 6th index (offset = seed mod 6)
         dict(name='c06_seq12_singles', src=_SRC12, libs=['-lcrypto'], wraps=WRAPS, env={'VERIF_DIR': '/verif'}, defs=['C06_ENUM'], enumerate=True,
-             quick=dict(cases=0, secs=70, stride=5), thorough=dict(cases=0, secs=600, stride=1)),
+             quick=dict(cases=0, secs=45, stride=6), thorough=dict(cases=0, secs=360, stride=1)),
     ],
 )
 _r13 = os.path.join(os.path.dirname(os.path.abspath(__file__)), 'reg13.py')
@@ -38,4 +41,11 @@ if os.path.exists(_r13) and os.environ.get('C06_ONLY') != '12':   # C06_ONLY=12|
     _m = importlib.util.module_from_spec(_spec)
     _spec.loader.exec_module(_m)
     PROP['targets'] += _m.TARGETS
+    # optional texts of the TLS 1.3 half: RULE (str), ASSUMPTIONS (list), LEVEL_NOTE (str)
+    if hasattr(_m, 'RULE'):
+        PROP['rule'] += ' || TLS 1.3 (c06_seq13*): ' + _m.RULE
+    if hasattr(_m, 'ASSUMPTIONS'):
+        PROP['assumptions'] += list(_m.ASSUMPTIONS)
+    if hasattr(_m, 'LEVEL_NOTE'):
+        PROP['level_note'] += ' ' + _m.LEVEL_NOTE
 
